@@ -348,26 +348,19 @@ func (c *v09Ctx) wildcard() string {
 var v09Bits4 = []int{0, 1, 7, 8, 9, 15, 16, 17, 23, 24, 25, 30, 31, 32}
 var v09Bits6 = []int{0, 1, 15, 16, 31, 32, 33, 47, 48, 63, 64, 65, 96, 112, 127, 128}
 
-func (c *v09Ctx) genRule(obs []string, hijack bool) v09Rule {
-	var r v09Rule
-	r.Ob = obs[c.n(0, len(obs)-1, "ob")]
-	var addrText string
+// genAddr draws the address pattern of a rule (kind + canonical value); the text is made by render.
+func (c *v09Ctx) genAddr(r *v09Rule) {
 	switch k := c.n(0, 11, "kind"); {
 	case k <= 1:
 		r.Kind, r.Dom = v09KExact, c.dom("dom")
-		addrText = c.spellHost(r.Dom, "domSpell")
 	case k <= 3:
 		r.Kind, r.Dom = v09KSuffix, c.dom("dom")
-		addrText = "suffix:" + c.spellHost(r.Dom, "domSpell")
 	case k <= 5:
 		r.Kind, r.Dom = v09KWild, c.wildcard()
-		addrText = c.spellHost(r.Dom, "domSpell")
 	case k == 6:
 		r.Kind, r.Addr = v09KIP, c.v4("ip4")
-		addrText = r.Addr.String()
 	case k == 7:
 		r.Kind, r.Addr = v09KIP, c.v6("ip6")
-		addrText = c.renderAddr(r.Addr, "ip6Spell")
 	case k == 8:
 		r.Kind, r.Addr = v09KCIDR, c.v4("ip4")
 		if c.n(0, 1, "bitsHow") == 0 {
@@ -375,7 +368,6 @@ func (c *v09Ctx) genRule(obs []string, hijack bool) v09Rule {
 		} else {
 			r.Bits = c.n(0, 32, "bits")
 		}
-		addrText = fmt.Sprintf("%s/%d", r.Addr, r.Bits)
 	case k == 9:
 		r.Kind, r.Addr = v09KCIDR, c.v6("ip6")
 		if c.n(0, 1, "bitsHow") == 0 {
@@ -383,12 +375,14 @@ func (c *v09Ctx) genRule(obs []string, hijack bool) v09Rule {
 		} else {
 			r.Bits = c.n(0, 128, "bits")
 		}
-		addrText = fmt.Sprintf("%s/%d", c.renderAddr(r.Addr, "ip6Spell"), r.Bits)
 	default:
 		r.Kind = v09KAll
-		addrText = []string{"all", "*"}[c.n(0, 1, "allSpell")]
 	}
-	// protocol / port
+}
+
+// genAction draws outbound, protocol, port range and hijack address.
+func (c *v09Ctx) genAction(r *v09Rule, obs []string, hijack bool) {
+	r.Ob = obs[c.n(0, len(obs)-1, "ob")]
 	r.Proto = c.n(0, 2, "proto")
 	port := func(label string) uint16 {
 		i := c.n(-1, len(v09Ports)-1, label)
@@ -398,6 +392,7 @@ func (c *v09Ctx) genRule(obs []string, hijack bool) v09Rule {
 		}
 		return v09Ports[i]
 	}
+	r.AnyPort, r.Lo, r.Hi = false, 0, 0
 	switch c.n(0, 5, "portKind") {
 	case 0, 1:
 		r.AnyPort = true
@@ -411,6 +406,7 @@ func (c *v09Ctx) genRule(obs []string, hijack bool) v09Rule {
 		}
 		r.Lo, r.Hi = a, b
 	}
+	r.Hijack = netip.Addr{}
 	if hijack && c.n(0, 3, "hijack?") == 0 {
 		if c.n(0, 1, "hijackFam") == 0 {
 			r.Hijack = c.v4("hijack4")
@@ -418,7 +414,23 @@ func (c *v09Ctx) genRule(obs []string, hijack bool) v09Rule {
 			r.Hijack = c.v6("hijack6")
 		}
 	}
-	// ---- protoPort text
+}
+
+// render writes the rule as one line of an ACL file (spelling, white space and comment drawn).
+func (c *v09Ctx) render(r *v09Rule) {
+	var addrText string
+	switch r.Kind {
+	case v09KExact, v09KWild:
+		addrText = c.spellHost(r.Dom, "domSpell")
+	case v09KSuffix:
+		addrText = "suffix:" + c.spellHost(r.Dom, "domSpell")
+	case v09KIP:
+		addrText = c.renderAddr(r.Addr, "ipSpell")
+	case v09KCIDR:
+		addrText = fmt.Sprintf("%s/%d", c.renderAddr(r.Addr, "ipSpell"), r.Bits)
+	default:
+		addrText = []string{"all", "*"}[c.n(0, 1, "allSpell")]
+	}
 	protoTok := []string{"*", "tcp", "udp"}[r.Proto]
 	if r.Proto != 0 {
 		protoTok = c.spell(protoTok, "protoSpell")
@@ -434,7 +446,6 @@ func (c *v09Ctx) genRule(obs []string, hijack bool) v09Rule {
 	default:
 		pp = fmt.Sprintf("%s/%d-%d", protoTok, r.Lo, r.Hi)
 	}
-	// ---- the line
 	sp := func(label string) string { return []string{"", "", " ", "  ", "\t"}[c.n(0, 4, label)] }
 	var sb strings.Builder
 	sb.WriteString(sp("ws0"))
@@ -454,14 +465,196 @@ func (c *v09Ctx) genRule(obs []string, hijack bool) v09Rule {
 		sb.WriteString(" # " + []string{"note", "reject(all)", "x(1.2.3.4,tcp/80)"}[c.n(0, 2, "commentText")])
 	}
 	r.Text = sb.String()
+}
+
+func (c *v09Ctx) genRule(obs []string, hijack bool) v09Rule {
+	var r v09Rule
+	c.genAddr(&r)
+	c.genAction(&r, obs, hijack)
+	c.render(&r)
 	return r
 }
 
+// randHostBits keeps the first `bits` bits of a and draws the rest.
+func (c *v09Ctx) randHostBits(a netip.Addr, bits int, label string) netip.Addr {
+	b := a.AsSlice()
+	rnd := rapid.SliceOfN(rapid.Byte(), len(b), len(b)).Draw(c.t, label)
+	for i := bits; i < len(b)*8; i++ {
+		m := byte(1) << (7 - uint(i%8))
+		b[i/8] = b[i/8]&^m | rnd[i/8]&m
+	}
+	r, _ := netip.AddrFromSlice(b)
+	if !r.Is4() && r.Is4In6() {
+		return a
+	}
+	return r
+}
+
+func v09SetHostBits(a netip.Addr, bits int, one bool) netip.Addr {
+	b := a.AsSlice()
+	for i := bits; i < len(b)*8; i++ {
+		m := byte(1) << (7 - uint(i%8))
+		if one {
+			b[i/8] |= m
+		} else {
+			b[i/8] &^= m
+		}
+	}
+	r, _ := netip.AddrFromSlice(b)
+	return r
+}
+
+// ipRun: 2-6 consecutive IP/CIDR rules with one and the same action whose
+// networks are nested / overlapping / duplicated / single addresses inside a
+// network, in sorted or unsorted order (what a rule-merging optimiser would
+// fold into one matcher), followed by a wider network under another action.
+func (c *v09Ctx) ipRun(obs []string, hijack bool) []v09Rule {
+	var act v09Rule
+	c.genAction(&act, obs, hijack)
+	var base netip.Addr
+	var outer int
+	if c.n(0, 2, "runFam") != 0 {
+		base = c.v4("runBase4")
+		outer = []int{0, 1, 7, 8, 12, 16, 20, 24}[c.n(0, 7, "runOuter")]
+	} else {
+		base = c.v6("runBase6")
+		outer = []int{0, 1, 16, 32, 48, 64, 96, 120}[c.n(0, 7, "runOuter")]
+	}
+	blen := base.BitLen()
+	n := c.n(2, 6, "runLen")
+	type member struct {
+		a    netip.Addr
+		bits int
+		ip   bool
+	}
+	ms := []member{{base, outer, false}}
+	for len(ms) < n {
+		var m member
+		switch c.n(0, 6, "runMember") {
+		case 0, 1, 2: // a network inside the outer one
+			m = member{c.randHostBits(base, outer, "runBits"), c.n(outer+1, blen, "runInner"), false}
+		case 3: // a single address inside the outer one
+			m = member{c.randHostBits(base, outer, "runBits"), blen, true}
+		case 4: // a duplicate
+			m = ms[c.n(0, len(ms)-1, "runDup")]
+		case 5: // nested one level deeper / a single address inside an earlier member
+			p := ms[c.n(0, len(ms)-1, "runParent")]
+			if p.bits < blen {
+				m = member{c.randHostBits(p.a, p.bits, "runBits"), c.n(p.bits+1, blen, "runInner"), c.n(0, 2, "runIP") == 0}
+				if m.ip {
+					m.bits = blen
+				}
+			} else {
+				m = p
+			}
+		default: // possibly outside: overlaps or is disjoint
+			m = member{c.randHostBits(base, c.n(0, outer, "runKeep"), "runBits"), c.n(0, blen, "runInner"), false}
+		}
+		ms = append(ms, m)
+	}
+	switch c.n(0, 2, "runOrder") {
+	case 0: // as generated: the enclosing network first
+	case 1: // sorted by address, widest first on ties
+		for i := 1; i < len(ms); i++ {
+			for j := i; j > 0 && (ms[j].a.Less(ms[j-1].a) || (ms[j].a == ms[j-1].a && ms[j].bits < ms[j-1].bits)); j-- {
+				ms[j], ms[j-1] = ms[j-1], ms[j]
+			}
+		}
+	default:
+		perm := rapid.Permutation(ms).Draw(c.t, "runPerm")
+		ms = perm
+	}
+	var out []v09Rule
+	for _, m := range ms {
+		r := act
+		r.Addr, r.Bits, r.Kind = m.a, m.bits, v09KCIDR
+		if m.ip {
+			r.Kind, r.Bits = v09KIP, 0
+		}
+		c.render(&r)
+		out = append(out, r)
+	}
+	// a wider network under a different action right behind the run
+	var w v09Rule
+	c.genAction(&w, obs, hijack)
+	if w.Ob == act.Ob && len(obs) > 1 {
+		for _, o := range obs {
+			if o != act.Ob {
+				w.Ob = o
+				break
+			}
+		}
+	}
+	w.Kind, w.Addr, w.Bits = v09KCIDR, base, c.n(0, outer, "runWider")
+	if c.n(0, 2, "runWiderAny") != 0 {
+		w.Proto, w.AnyPort, w.Lo, w.Hi = 0, true, 0, 0
+	}
+	c.render(&w)
+	return append(out, w)
+}
+
+// domRun: 2-6 consecutive domain rules of one family (d, sub.d, suffix:d, *.d, *d, notd ...) under one action.
+func (c *v09Ctx) domRun(obs []string, hijack bool) []v09Rule {
+	var act v09Rule
+	c.genAction(&act, obs, hijack)
+	d := c.dom("runDom")
+	type pat struct {
+		kind int
+		dom  string
+	}
+	fam := []pat{{v09KExact, d}, {v09KSuffix, d}, {v09KWild, "*." + d}, {v09KWild, "*" + d}, {v09KExact, "sub." + d},
+		{v09KSuffix, "sub." + d}, {v09KExact, "not" + d}, {v09KExact, "www." + d}, {v09KWild, "*.sub." + d}, {v09KWild, "w*." + d}}
+	if i := strings.IndexByte(d, '.'); i >= 0 {
+		fam = append(fam, pat{v09KSuffix, d[i+1:]}, pat{v09KExact, d[i+1:]})
+	}
+	n := c.n(2, 6, "runLen")
+	var out []v09Rule
+	for i := 0; i < n; i++ {
+		p := fam[c.n(0, len(fam)-1, "runPat")]
+		r := act
+		r.Kind, r.Dom = p.kind, p.dom
+		c.render(&r)
+		out = append(out, r)
+	}
+	return out
+}
+
+// genRules: single random rules mixed with the motifs an optimiser might
+// exploit (runs of adjacent same-action rules, a port-limited "all" early in
+// the list, a catch-all at the end).
 func (c *v09Ctx) genRules(obs []string, hijack bool, lo, hi int) []v09Rule {
 	n := c.n(lo, hi, "nrules")
-	rules := make([]v09Rule, n)
-	for i := range rules {
-		rules[i] = c.genRule(obs, hijack)
+	var rules []v09Rule
+	for len(rules) < n {
+		switch m := c.n(0, 11, "motif"); {
+		case m <= 1 && n-len(rules) >= 3:
+			rules = append(rules, c.ipRun(obs, hijack)...)
+		case m == 2 && n-len(rules) >= 2:
+			rules = append(rules, c.domRun(obs, hijack)...)
+		default:
+			rules = append(rules, c.genRule(obs, hijack))
+		}
+	}
+	if len(rules) > hi+4 {
+		rules = rules[:hi+4]
+	}
+	if len(rules) >= 2 && c.n(0, 5, "earlyAll") == 0 { // a port-limited "all" early in the list
+		var r v09Rule
+		c.genAction(&r, obs, hijack)
+		r.Kind = v09KAll
+		if r.AnyPort {
+			r.AnyPort, r.Lo, r.Hi = false, 80, 443
+		}
+		c.render(&r)
+		i := c.n(0, 1, "earlyAllAt")
+		rules = append(rules[:i], append([]v09Rule{r}, rules[i:]...)...)
+	}
+	if len(rules) >= 1 && c.n(0, 5, "finalAll") == 0 { // catch-all at the end
+		var r v09Rule
+		c.genAction(&r, obs, hijack)
+		r.Kind, r.Proto, r.AnyPort, r.Lo, r.Hi = v09KAll, 0, true, 0, 0
+		c.render(&r)
+		rules = append(rules, r)
 	}
 	return rules
 }
@@ -553,7 +746,7 @@ func (c *v09Ctx) nearAddr(r *v09Rule) netip.Addr {
 			a = v09FlipBit(a, blen-1-c.n(0, 7, "flip"))
 		}
 	case v09KCIDR:
-		switch c.n(0, 3, "nearNet") {
+		switch c.n(0, 9, "nearNet") {
 		case 0: // just outside: the last significant bit differs
 			if r.Bits > 0 {
 				a = v09FlipBit(a, r.Bits-1)
@@ -565,6 +758,20 @@ func (c *v09Ctx) nearAddr(r *v09Rule) netip.Addr {
 		case 2: // some host bit
 			if r.Bits < blen {
 				a = v09FlipBit(a, c.n(r.Bits, blen-1, "flip"))
+			}
+		case 3, 4, 5: // anywhere inside (inside this network, most likely in none of the narrower ones)
+			a = c.randHostBits(a, r.Bits, "hostBits")
+		case 6: // first address of the network
+			a = v09SetHostBits(a, r.Bits, false)
+		case 7: // last address of the network
+			a = v09SetHostBits(a, r.Bits, true)
+		case 8: // the address before the first / after the last one
+			if c.n(0, 1, "beforeAfter") == 0 {
+				if p := v09SetHostBits(a, r.Bits, false).Prev(); p.IsValid() {
+					a = p
+				}
+			} else if p := v09SetHostBits(a, r.Bits, true).Next(); p.IsValid() {
+				a = p
 			}
 		}
 	}
